@@ -252,8 +252,8 @@ Print Assumptions C06_connect_uses_credentials_stored_at_connect_time.
    play sent), and on v2 keys installed, only if verify_credentials returned, i.e. only if the
    reply proved the stored identity; otherwise the entry point raises and nothing further is sent. *)
 Theorem C06_stream_used_only_if_identity_proved :
-  forall x25519 hkdf dec enc pk_load sig_ok sign v1m v k h c f1 pd f3 pd4,
-  let r := stream_entry x25519 hkdf dec enc pk_load sig_ok sign v1m v k h c f1 pd f3 pd4 in
+  forall x25519 hkdf dec enc pk_load sig_ok sign v1m v1k v k h c f1 pd f3 pd4,
+  let r := stream_entry x25519 hkdf dec enc pk_load sig_ok sign v1m v1k v k h c f1 pd f3 pd4 in
   (e_used r = true \/ e_keys r = true ->
    e_raised r = None /\
    exists t spub encd shared pt it sg,
@@ -279,9 +279,9 @@ Print Assumptions C06_stream_used_only_if_identity_proved.
 (* Where the entry point goes through verify_connection (v2; v1 iff v1_mapped) every reply that
    is not accepted - no transport fault - surfaces as AuthenticationError ... *)
 Theorem C06_stream_mapped_reject_is_authentication_error :
-  forall x25519 hkdf dec enc pk_load sig_ok sign v k h c pd pd4,
-  e_used (stream_entry x25519 hkdf dec enc pk_load sig_ok sign true v k h c None pd None pd4) = false ->
-  e_raised (stream_entry x25519 hkdf dec enc pk_load sig_ok sign true v k h c None pd None pd4) = Some EAuthentication.
+  forall x25519 hkdf dec enc pk_load sig_ok sign v1k v k h c pd pd4,
+  e_used (stream_entry x25519 hkdf dec enc pk_load sig_ok sign true v1k v k h c None pd None pd4) = false ->
+  e_raised (stream_entry x25519 hkdf dec enc pk_load sig_ok sign true v1k v k h c None pd None pd4) = Some EAuthentication.
 Proof.
   intros until pd4. unfold stream_entry.
   destruct (verify_credentials x25519 hkdf dec enc pk_load sig_ok sign k AirPlay h c None pd None pd4) as [reply|e] eqn:E; cbn; [discriminate|].
@@ -289,12 +289,12 @@ Proof.
 Qed.
 Print Assumptions C06_stream_mapped_reject_is_authentication_error.
 
-(* ... but NOT where v1 calls verify_credentials() bare (the code as it stands when v1_mapped is
+(* ... but NOT where v1 calls verify_credentials() bare (the code as it stands when Gen.v1_mapped is
    false): a flipped ciphertext bit surfaces from AirPlayV1.setup/play_url as InvalidTag.  Witness:
    the tables of the example below. *)
 Theorem C06_stream_v1_unmapped_wrong_exception_refuted :
   exists x25519 hkdf dec enc pk_load sig_ok sign k h c pd pd4,
-  stream_entry x25519 hkdf dec enc pk_load sig_ok sign false V1 k h c None pd None pd4
+  stream_entry x25519 hkdf dec enc pk_load sig_ok sign false false V1 k h c None pd None pd4
   = {| e_raised := Some EInvalidTag; e_used := false; e_keys := false |}.
 Proof.
   exists (fun _ _ => Some [9]), (fun _ _ _ => [5]), (fun _ _ _ => None), (fun _ _ _ => []), (fun _ => true), (fun _ _ _ => true), (fun _ _ => None).
